@@ -10,6 +10,9 @@ import Verif.C13.LoaderRoundtrip
 import Verif.C13.MaskLemmas
 import Verif.C13.LinkLemmas
 import Verif.C13.NoMatch
+import Verif.C13.MaskTrace
+import Verif.C13.Text
+import Verif.C13.Active
 
 namespace Verif.C13
 
@@ -330,6 +333,128 @@ blocked and leaves the string alone; without the mask it rewrites. -/
 example : (applyRuleM "abc".toList [⟨1, 2, []⟩] [0, 0, 1, 0, 0] [] [.lit ['c']]).res.out = "abc".toList
     ∧ (applyRuleM "abc".toList [⟨1, 2, []⟩] [0, 0, 0, 0, 0] [] [.lit ['c']]).res.out = "acc".toList
     ∧ maskApply [0, 0, 0, 0, 0] [⟨1, 2, []⟩] [0, 0, 0, 0, 0] = some [0, 0, 1, 0, 0] := by decide
+
+/-! ## the trace clauses for EVERY program (mask rules anywhere; no `opsMaskFree` hypothesis)
+
+"The trace is a chain in which each step's input is the previous step's output and whose last element
+equals the result of apply, and a mask rule by itself never changes the string or any reported span" —
+over `traceStepsM`, the semantics that threads the mask array the way the code does. -/
+
+/-- what every yielded step is, under masks: the rule's own loop on the current string and the current
+mask array, a mask step, or a group summary of the current string. -/
+theorem trace_structure_masked (eng meng : Eng) (f : Nat) (ops : List Op) (s : Str) (stm : List StepM) (o : Str)
+    (h : traceStepsM eng meng f ops s = .ok (stm, o)) :
+    TraceFromM eng meng s (zeroMask s) stm o (lastMask stm (zeroMask s)) :=
+  L.traceStepsM_traceFromM eng meng f ops s stm o h
+
+/-- verbose trace of any program: rule and mask steps chain from the input to the result. -/
+theorem trace_chain_masked (eng meng : Eng) (f : Nat) (ops : List Op) (s : Str) (stm : List StepM) (o : Str)
+    (h : traceStepsM eng meng f ops s = .ok (stm, o)) : Chain s ((stm.map (·.step)).filter Step.isBasic) o :=
+  L.chainFrom_basic s _ o (L.traceFromM_chainFrom eng meng s _ stm o _ (trace_structure_masked eng meng f ops s stm o h))
+
+/-- non-verbose trace of any program (a rule whose matches were all blocked is not shown): still a chain. -/
+theorem trace_chain_applied_masked (eng meng : Eng) (f : Nat) (ops : List Op) (s : Str) (stm : List StepM) (o : Str)
+    (h : traceStepsM eng meng f ops s = .ok (stm, o)) :
+    Chain s ((stm.map (·.step)).filter (fun x => x.isBasic && x.applied)) o :=
+  L.traceFromM_applied_chain eng meng s _ stm o _ (trace_structure_masked eng meng f ops s stm o h)
+
+/-- in any program, at any depth and in any round, a mask step reports its input as its output with zero maps. -/
+theorem mask_steps_identity_masked (eng meng : Eng) (f : Nat) (ops : List Op) (s : Str) (stm : List StepM) (o : Str)
+    (h : traceStepsM eng meng f ops s = .ok (stm, o)) :
+    ∀ x ∈ stm, ∀ id, x.step.kind = Kind.mask id →
+      x.step.out = x.step.inp ∧ x.step.sm = zeromap x.step.inp ∧ x.step.em = zeromap x.step.inp :=
+  L.traceFromM_mask_steps eng meng s _ stm o _ (trace_structure_masked eng meng f ops s stm o h)
+
+/-- a rule step under a mask: the substitution of exactly the matches that are not blocked. -/
+theorem rule_step_masked_string (eng : Eng) (id : Nat) (tr un : List Seg) (s : Str) (mk : MaskA) :
+    (ruleStepM eng id tr un s mk).step.out = subst s (tr ++ un) (liveMatches s (eng id s) mk tr un) 0 :=
+  L.applyRuleM_string s (eng id s) mk tr un
+
+/-- the chain hypothesis is not vacuous: mask, blocked rule, rule that applies. -/
+example : ∃ stm o, traceStepsM (fun id s => if id = 0 ∧ s = "ab".toList then [⟨0, 1, []⟩] else if id = 1 ∧ s = "ab".toList then [⟨1, 2, []⟩] else [])
+      (fun _ s => if s = "ab".toList then [⟨0, 1, []⟩] else []) 5
+      [.mask 0, .rule 0 [] [.lit ['x']], .rule 1 [] [.lit ['y']]] "ab".toList = .ok (stm, o) ∧ o = "ay".toList :=
+  ⟨_, _, by rfl, by rfl⟩
+
+/-! ## from TEXT to lines (`str.splitlines()` in `from_string` and `_repp_lines`) -/
+
+/-- Text made of lines, each followed by LF, CRLF, a bare CR or another boundary character of
+`splitlines` (VT, FF, FS, GS, RS, NEL, LS, PS), and a last line without terminator: `splitlines` gives
+back exactly the lines (the last one only if it is not empty) — if no line contains a boundary
+character and no bare CR stands directly before a line feed (`crSafe`). -/
+theorem splitlines_text (ls : List (Str × Loader.Eol)) (final : Str)
+    (hls : ∀ p ∈ ls, Loader.noBreak p.1 = true ∧ p.2.ok = true) (hf : Loader.noBreak final = true)
+    (hs : Loader.crSafe ls final = true) :
+    Loader.splitLines (Loader.renderText ls final) = ls.map (·.1) ++ (if final.isEmpty then [] else [final]) :=
+  Loader.L.splitAux_render ls final hls hf hs false (by intro h; cases h)
+
+/-- … so loading a module from its TEXT is loading its lines, whatever the line terminators, with or
+without a final newline; the directory's files are split the same way (`TextEnv.toEnv`). -/
+theorem load_text_lines (te : Loader.TextEnv) (k : Nat) (ls : List (Str × Loader.Eol)) (final : Str)
+    (hls : ∀ p ∈ ls, Loader.noBreak p.1 = true ∧ p.2.ok = true) (hf : Loader.noBreak final = true)
+    (hs : Loader.crSafe ls final = true) :
+    Loader.loadText te k (Loader.renderText ls final)
+      = Loader.loadLines te.toEnv k (ls.map (·.1) ++ (if final.isEmpty then [] else [final])) := by
+  unfold Loader.loadText
+  rw [splitlines_text ls final hls hf hs]
+
+/-- `crSafe` is necessary: a line ended by a bare CR followed by an empty line ended by LF reads as ONE
+line ended by CRLF. -/
+theorem crSafe_necessary :
+    Loader.splitLines (Loader.renderText [(['a'], .cr), ([], .lf)] []) = [['a']]
+    ∧ Loader.crSafe [(['a'], .cr), ([], .lf)] [] = false := by decide
+
+/-- the hypotheses are satisfiable: LF, CRLF, FF and a bare CR as terminators, empty lines, no final newline. -/
+example : Loader.splitLines (Loader.renderText [("!a\tb".toList, .crlf), ([], .lf), (">1".toList, .other (Char.ofNat 12)),
+      ("#1".toList, .cr)] "#".toList) = ["!a\tb".toList, [], ">1".toList, "#1".toList, "#".toList] :=
+  splitlines_text _ _ (by decide) (by decide) (by decide)
+
+/-! ## "applying an external group only when it is active": the object's state and the `active` argument -/
+
+/-- `active` matters only as a set: two collections with the same members (any order, duplicates,
+any iterable the caller passes) give the same result, trace and maps — or the same error. -/
+theorem active_only_as_set (env : Loader.Env) (E : Link.LinkEnv) (eng : Eng) (k f : Nat) (lines : List Str) (s : Str)
+    (A B : List Str) (h : ∀ n, A.contains n = B.contains n) :
+    Link.applyText env { E with active := A } eng k f lines s = Link.applyText env { E with active := B } eng k f lines s :=
+  Link.L.applyText_active_congr env E eng k f lines s A B h
+
+theorem active_only_as_set_masked (env : Loader.Env) (E : Link.LinkEnv) (eng meng : Eng) (k f : Nat) (lines : List Str)
+    (s : Str) (A B : List Str) (h : ∀ n, A.contains n = B.contains n) :
+    Link.applyTextM env { E with active := A } eng meng k f lines s
+      = Link.applyTextM env { E with active := B } eng meng k f lines s :=
+  Link.L.applyTextM_active_congr env E eng meng k f lines s A B h
+
+/-- a call of an inactive module can be deleted from a program, and inserted anywhere: same result. -/
+theorem inactive_ext_removable (eng : Eng) (pre post body : List Op) (f : Nat) (s o : Str)
+    (h : runOps eng f (pre ++ Op.ext false body :: post) s = some o) : runOps eng f (pre ++ post) s = some o :=
+  Link.L.runOps_remove_inactive eng pre post body f s o h
+
+theorem inactive_ext_insertable (eng : Eng) (pre post body : List Op) (f : Nat) (s o : Str)
+    (h : runOps eng f (pre ++ post) s = some o) : runOps eng (f + 2) (pre ++ Op.ext false body :: post) s = some o :=
+  Link.L.runOps_insert_inactive eng pre post body f s o h
+
+/-- ONE object, a history of calls (`activate`, `deactivate`, `apply`, `trace` in any order): the answer of
+a call after the history `cs` is the answer of the object in the state `o.after cs` … -/
+theorem session_call_after_history {α} (run : List Str → Str → Bool → α) (o : Link.Obj) (cs : List Link.Call) (c : Link.Call) :
+    Link.runCalls run o (cs ++ [c]) = Link.runCalls run o cs ++ [(o.after cs).answer run c] :=
+  Link.L.runCalls_append run o cs [c]
+
+/-- … a call with an explicit `active` argument answers the same in every state (no state of the object
+leaks into it; it REPLACES the default activations) … -/
+theorem session_explicit_active_pure {α} (run : List Str → Str → Bool → α) (o o' : Link.Obj) (s : Str) (A : List Str) (v : Bool) :
+    o.answer run (.apply s (some A)) = o'.answer run (.apply s (some A))
+    ∧ o.answer run (.trace s (some A) v) = o'.answer run (.trace s (some A) v)
+    ∧ o.answer run (.apply s (some A)) = some (run A s false) := ⟨rfl, rfl, rfl⟩
+
+/-- … and without the argument the active modules are the defaults: module `n` is active iff the LAST
+`activate(n)` / `deactivate(n)` of the history was an `activate`, or, with neither in the history, iff it
+was among the constructor's `active`. -/
+theorem session_default_activation (o : Link.Obj) (cs : List Link.Call) (n : Str) :
+    (o.after cs).defaults.contains n = (Link.lastSetting n cs).getD (o.defaults.contains n) :=
+  Link.L.after_contains o cs n
+
+example : (Link.Obj.after ⟨["x".toList]⟩ [.activate "y".toList, .apply [] none, .deactivate "x".toList,
+    .activate "y".toList, .deactivate "z".toList]).defaults = ["y".toList] := by decide
 
 /-! ## hypotheses are satisfiable / concrete instances (past failures as regression) -/
 
